@@ -8,6 +8,7 @@ correspondence harness compares with the real code.  `GoodGraph G` is the invari
 `cnfgen.graphs.Graph` objects (sorted, symmetric, loop-free adjacency within `1..n`).
 -/
 import Lemmas.FamTseitin
+import Lemmas.FamTseitinConv
 import Lemmas.FamColoring
 import Lemmas.FamDomSet
 namespace Cnfgen.C02
@@ -67,23 +68,33 @@ def TseitinSatIff (G : SimpleG) (ch : Option (List Bool)) : Prop :=
     ∀ C : Nat → Bool, (∀ v u, C v = true → u ∈ G.nbrs v → C u = true) →
       Even ((Finset.Icc 1 G.n).filter (fun v => C v = true ∧ chargeAt G.n ch v = true)).card
 
-/-- T-C02.1c (partial): the "only if" half of `TseitinSatIff` — sum of the vertex equations over
-a closed vertex set, every internal edge counted twice.
-NOT proven here: the converse (a spanning-forest construction) and the model count
-`2^(|E|-|V|+c)` of a satisfiable instance; both are mathematics about the parity system, not
-about the code, and are cross-checked by the harness oracle on all small graphs (a test). -/
-theorem tseitin_sat_components_partial (G : SimpleG) (hG : GoodGraph G) (ch : Option (List Bool))
+/-- T-C02.1c the "only if" half — sum of the vertex equations over a closed vertex set, every
+internal edge counted twice -/
+theorem tseitin_sat_components (G : SimpleG) (hG : GoodGraph G) (ch : Option (List Bool))
     (h : ∃ α, (tseitin G ch).holds α = true) (C : Nat → Bool)
     (hC : ∀ v u, C v = true → u ∈ G.nbrs v → C u = true) :
     Even ((Finset.Icc 1 G.n).filter (fun v => C v = true ∧ chargeAt G.n ch v = true)).card := by
   obtain ⟨α, hα⟩ := h
   exact tseitin_parity G hG ch α ((tseitin_holds_iff G ch α).1 hα) C hC
 
+/-- T-C02.1d the full criterion, both directions (the converse repairs defective vertices in
+pairs by flipping the edge variables along a walk; `Lemmas/FamTseitinConv.lean`).
+NOT proven here: the model count `2^(|E|-|V|+c)` of a satisfiable instance — mathematics about
+the parity system, not about the code; cross-checked by the harness oracle on every generated
+instance with at most 16/18 variables (a test, labelled as a test). -/
+theorem tseitin_sat_iff (G : SimpleG) (hG : GoodGraph G) (ch : Option (List Bool)) :
+    TseitinSatIff G ch := by
+  constructor
+  · intro h C hC; exact tseitin_sat_components G hG ch h C hC
+  · intro h
+    obtain ⟨α, hα⟩ := tseitin_converse hG ch h
+    exact ⟨α, (tseitin_holds_iff G ch α).2 hα⟩
+
 /-- non-vacuity: on `exG` with default charges the closed set {1,2,3} (the triangle) contains the
 single odd vertex, so the formula is unsatisfiable -/
 example : ¬ ∃ α, (tseitin exG none).holds α = true := by
   intro h
-  have := tseitin_sat_components_partial exG exG_good none h (fun v => decide (v ≤ 3))
+  have := tseitin_sat_components exG exG_good none h (fun v => decide (v ≤ 3))
     exG_triangle_closed
   revert this; decide
 
